@@ -14,6 +14,12 @@ theorem rle_roundtrip (s : Bytes) : rleDecode (rleEncode s) = s := by
   rw [rleDec_rleEnc s 0 (by omega)]
   simp
 
+/-- Hence the RLE layer never maps two byte strings to the same encoding (no two file ids can
+collide through it, whatever their zero runs). -/
+theorem rle_injective (a b : Bytes) (h : rleEncode a = rleEncode b) : a = b := by
+  have := congrArg rleDecode h
+  rwa [rle_roundtrip, rle_roundtrip] at this
+
 /-- The loop body of `rleEncode` obtained from the source by symbolic execution (`rleEnc`, what
 the driver runs and `rle_roundtrip` is about) is the readable transliteration `rleEncRef`; and
 `rleDecode` is the pinned loop. -/
